@@ -62,7 +62,9 @@ func (sel *Selection) findSlice(segs []*Path) (*Selection, error) {
 			}
 			copy := *p
 			copy.parent = p
-			copy.Path = segs[i]
+			// the segments were parsed relative to where the search started: the path of what
+			// is found continues the path of the node that holds it
+			copy.Path = &Path{Parent: p.Path, Meta: segs[i].Meta, Key: segs[i].Key}
 			return &copy, nil
 		} else if meta.IsList(segs[i].Meta) || meta.IsContainer(segs[i].Meta) {
 			r := &ChildRequest{
